@@ -580,7 +580,7 @@ pub fn gen_history(g: &mut Gen, p: &Profile, contracts_hint: &[&str]) -> History
             }
             TxKind::Exec { sender: ARef::User(tg.g.below(N_USERS) as u8), msg, via: if tg.g.bool() { Via::Helper } else { Via::Execute } }
         } else {
-            match tg.g.weighted(&[16, p.multi_w, p.sudo_w, 1, p.block_w, p.store_w, p.query_tx_w]) {
+            match tg.g.weighted(&[16, p.multi_w, p.sudo_w, 1, p.block_w, p.store_w, p.query_tx_w, if staking { p.sudo_w.min(2) } else { 0 }]) {
                 0 => {
                     let msg = tg.msg(0);
                     let sender = if tg.g.chance(1, 8) { tg.aref() } else { ARef::User(tg.g.below(N_USERS) as u8) };
@@ -608,6 +608,7 @@ pub fn gen_history(g: &mut Gen, p: &Profile, contracts_hint: &[&str]) -> History
                 }
                 4 => TxKind::Block { dh: tg.g.below(4) as u64, dt: tg.g.below(100) as u64, set: tg.g.bool(), chain: if tg.g.chance(1, 4) { Some(tg.g.below(3) as u8) } else { None } },
                 5 => TxKind::Store(gen_codespec(tg.g, p)),
+                7 => TxKind::Slash { v: tg.vidx(), percent: tg.g.below(3) as u8 },
                 _ => {
                     let n = 1 + tg.g.below(4);
                     TxKind::Queries(
